@@ -336,13 +336,15 @@ Section Guards.
   Definition negotiate_g (refuses : request -> fat -> bool) (r : request) (f : fat) : option (N * bytes) :=
     if refuses r f then Some (406, errpage 406) else None.
 
-  (** the whole server: Model/Cache.v [run] above [compute_g]; no Prime extension rewrites the URI
-      ([Extensions::empty()] + [mount_all]) *)
-  Definition run_g (cache_on ims_on : bool) (parse_ims : bytes -> option Z)
+  (** the whole server: Model/Cache.v [run] above [compute_g]. [prime]: the URI rewriting of the
+      non-internal Prime extensions (identity for [Extensions::empty()] + [mount_all]; "Expand . and /"
+      for [Extensions::new()] + [mount_all]); sanitize looks at the request before, everything else
+      at the request after the rewriting *)
+  Definition run_g (cache_on ims_on : bool) (parse_ims : bytes -> option Z) (prime : request -> request)
       (refuses : request -> fat -> bool) (vary_tuple : request -> tuple)
       (vary_header : request -> fat -> list (bytes * bytes))
       (c : cache) (now : N) (ops : list op) : list obs :=
-    run unit compute_g cache_on ims_on parse_ims sanitize_ok_g (fun r => r)
+    run unit compute_g cache_on ims_on parse_ims sanitize_ok_g prime
         (negotiate_g refuses) vary_tuple vary_header (c, tt) now ops.
 End Guards.
 
@@ -384,9 +386,9 @@ Definition leaks (secret : bytes) (rp : reply) : bool :=
   contains_sub secret (rp_body rp) || contains_sub secret (rp_identity rp).
 
 (** what the property demands of one observation of a history *)
-Definition reply_ok (fs : bytes -> option bytes) (secret : bytes) (o : op) (ob : obs) : Prop :=
+Definition reply_ok (fs : bytes -> option bytes) (secret : bytes) (prime : request -> request) (o : op) (ob : obs) : Prop :=
   match o, ob with
-  | OReq r, ObReply rp _ => leaks secret rp = true -> permitted fs r
+  | OReq r, ObReply rp _ => leaks secret rp = true -> permitted fs (prime r)
   | _, _ => True
   end.
 
@@ -436,7 +438,7 @@ Definition fs_of_tree (tree : PathSan.node) (t : bytes) : option bytes :=
 Definition errpage_fix (code : N) : bytes := ERRPAGE.
 
 Record gconfig := mkG {
-  g_cache : bool; g_ims : bool; g_files : list (bytes * bytes);
+  g_cache : bool; g_default_ext : bool; g_ims : bool; g_files : list (bytes * bytes);
   g_vary : list (bytes * list vrule); g_report : list bytes; g_phase : N }.
 
 Definition d_gconfig (x : xval) : option gconfig :=
@@ -448,15 +450,18 @@ Definition d_gconfig (x : xval) : option gconfig :=
       let ph := match kv_get (B "phase") l with Some (XN n) => n | _ => 500 end in
       match fl, vr, rp with
       | Some fl', Some vr', Some rp' =>
-          Some (mkG (kv_flag (B "cache") l true) (negb (kv_flag (B "disable_ims") l false)) fl' vr' rp' ph)
+          Some (mkG (kv_flag (B "cache") l true) (kv_flag (B "default_ext") l false) (negb (kv_flag (B "disable_ims") l false)) fl' vr' rp' ph)
       | _, _, _ => None
       end
   | _ => None
   end.
 
+Definition g_prime (g : gconfig) : request -> request :=
+  if g_default_ext g then uri_redirect else (fun r => r).
+
 Definition run_gcfg (fix_ext fix_lock : bool) (g : gconfig) (ops : list op) : list obs :=
   run_g fix_ext fix_lock (fs_of_tree (tree_of (g_files g))) errpage_fix (g_cache g) (g_ims g) parse_ims_fix
-        (fun _ _ => false) (vary_tuple_fix (g_vary g)) (vary_header_fix (g_vary g)) [] (g_phase g) ops.
+        (g_prime g) (fun _ _ => false) (vary_tuple_fix (g_vary g)) (vary_header_fix (g_vary g)) [] (g_phase g) ops.
 
 Definition obs_panicked (o : obs) : bool :=
   match o with ObReply rp _ => rp_status rp =? 0 | _ => false end.
@@ -485,7 +490,8 @@ Definition run_guards_spec (x : xval) : xval :=
       | Some g, Some ops' =>
           let fs := fs_of_tree (tree_of (g_files g)) in
           XL (map (fun o => match o with
-                            | OReq r => XL [x_bool (permitted_b fs r);
+                            | OReq r0 => let r := g_prime g r0 in
+                                        XL [x_bool (permitted_b fs r);
                                             XB (match served_file (rq_path r) with Ok (Some t) => t | _ => [] end)]
                             | _ => XL []
                             end) ops')
